@@ -39,22 +39,23 @@ Definition line_pixels (bits_pp : Z) (npix : Z) (bytes : list Z) : list (list bo
   firstn (Z.to_nat npix) (groups (Z.to_nat bits_pp) (sbits_of_bytes bytes)).
 
 (* the lines of one pass *)
-Definition pass_rows (p : Z) (lines : list (option Z * Z * list (list bool))) : list (list (list bool)) :=
+Definition pass_rows {A} (p : Z) (lines : list (option Z * Z * list A)) : list (list A) :=
   flat_map (fun l => match fst (fst l) with
                      | Some q => if q =? p then [snd l] else []
                      | None => []
                      end) lines.
 
-(* the picture as rows (top to bottom) of pixels (left to right), each pixel = bits_pp bits *)
+(* the picture as rows (top to bottom) of pixels (left to right) from its scan lines of pixels *)
+Definition assemble {A} (w h : Z) (il : bool) (plines : list (option Z * Z * list A)) : option (list (list A)) :=
+  if il then spec_deinterlace w h (map (fun p => pass_rows p plines) passes7)
+  else Some (map snd plines).
+
+(* each pixel = bits_pp bits *)
 Definition spec_image_pixels (w h bits_pp : Z) (il : bool) (data : list Z) : option (list (list (list bool))) :=
   if (w <=? 0) || (h <=? 0) || (bits_pp <=? 0) then None else
   match cut_layout (spec_layout w h bits_pp il) data with
   | None => None
-  | Some lines =>
-      let plines := map (fun l => (fst l, line_pixels bits_pp (snd (fst l)) (snd l))) lines in
-      if il then
-        Some (spec_deinterlace (repeat false (Z.to_nat bits_pp)) w h (map (fun p => pass_rows p plines) passes7))
-      else Some (map snd plines)
+  | Some lines => assemble w h il (map (fun l => (fst l, line_pixels bits_pp (snd (fst l)) (snd l))) lines)
   end.
 
 (* ------------------------------------------------------------------ colour *)
@@ -115,13 +116,6 @@ Definition pixel_color_scaled (c : spec_color) (bits : list bool) : option rgba1
   color_of_samples (round_key c) 8 (map round8 (map sval (groups 16 bits))).
 
 Record picture := { pic_w : Z; pic_h : Z; pic_px : list (list rgba16) }.
-
-Fixpoint all_some {A} (l : list (option A)) : option (list A) :=
-  match l with
-  | [] => Some []
-  | Some a :: t => match all_some t with Some r => Some (a :: r) | None => None end
-  | None :: _ => None
-  end.
 
 (* legal colour type / bit depth combinations *)
 Definition depth_legal (c : spec_color) (d : Z) : bool :=
